@@ -1,6 +1,7 @@
 import GoawkModel.Basic
 import GoawkModel.C13
 import GoawkModel.C13Newline
+import GoawkModel.C13Csv
 /-! Line-protocol handler for property C13.
 
 `run <buffered 0|1> <failAt | -> <fs> <op>*`
@@ -10,8 +11,11 @@ import GoawkModel.C13Newline
   system: `snap_<file>` looks at a file, `say_<tok>` prints `<tok>\n`, `rc<k>` exits with k
 `runx <crlf 0|1> <buffered 0|1> <failAt | -> <fs> <stmt>*` — the same with the newline-output mode and print statements:
 * `ofs:<v>` `ors:<v>` `rec:<v>` (assignments to OFS, ORS, $0; no return value, not an operation of the output model)
+* `om:<sep>` (OUTPUTMODE: the separator of a CSV / TSV mode, `-` = the default mode; also sent first for the mode a run starts in)
 * in `p:` `gt:` `app:` `pipe:` the content is `P` (bare print), `P<arg>+<arg>…` (print with arguments) or `F<s>` / `<s>`
   (printf: one write of the formatted string); lowered by `GoawkModel.C13.lower`
+`csvread <sep> <text>` — the specification-side CSV reader (`GoawkModel.C13.csvRead`, one-byte separator) on a text (hex):
+answer `ok <record>;<record>…` (a record = its fields in hex, comma separated) or `none`
 answer: `ok <ret>* ; <outcome> ; <out> ; <flush,…> ; <name=content,…> ; <cmd:input:status,…>` -/
 namespace GoawkModel.Drv.C13
 open GoawkModel GoawkModel.C13
@@ -69,6 +73,7 @@ def parseStmt (s : String) : Option Stmt :=
   | ["ofs", v] => do pure (.setOFS (← fromHex v))
   | ["ors", v] => do pure (.setORS (← fromHex v))
   | ["rec", v] => do pure (.setRec (← fromHex v))
+  | ["om", v] => do let sep ← fromHex v; pure (.setOM (if sep.isEmpty then none else some sep))
   | ["p", c] => parseBody none c
   | ["gt", n, c] => do parseBody (some (.gt, ← fromHex n)) c
   | ["app", n, c] => do parseBody (some (.app, ← fromHex n)) c
@@ -91,7 +96,15 @@ def showOutcome : Outcome → String
 
 def commaOr (l : List String) : String := if l.isEmpty then "." else String.intercalate "," l
 
-def handle (args : List String) : String :=
+def handleCsvRead (sep text : String) : String :=
+  match fromHex sep, fromHex text with
+  | some [c], some t =>
+    match csvRead c t .fieldStart [] [] [] with
+    | some recs => "ok " ++ String.intercalate ";" (recs.map fun r => String.intercalate "," (r.map toHex))
+    | none => "none"
+  | _, _ => "bad-request"
+
+def handleRun (args : List String) : String :=
   let parsed : Option (String × String × String × List Op) :=
     match args with
     | "run" :: buffered :: failAt :: fs :: ops => do pure (buffered, failAt, fs, ← ops.mapM parseOp)
@@ -111,5 +124,10 @@ def handle (args : List String) : String :=
         toHex s.outLog]
     | none => "bad-request"
   | none => "bad-request"
+
+def handle (args : List String) : String :=
+  match args with
+  | ["csvread", sep, text] => handleCsvRead sep text
+  | _ => handleRun args
 
 end GoawkModel.Drv.C13
